@@ -228,6 +228,9 @@ class _SocksMachine(object):
         # "the I/O-doing" stuff
         self._sender = sender
         self._when_done.fire(sender)
+        # anything that arrived in the same segment as the reply
+        # already belongs to the application
+        self._relay_pending()
 
     @_machine.output()
     def _domain_name_resolved(self, domain):
@@ -299,6 +302,9 @@ class _SocksMachine(object):
     @_machine.output()
     def _relay_data(self):
         "relay any data we have"
+        self._relay_pending()
+
+    def _relay_pending(self):
         if self._data:
             d = self._data
             self._data = b''
